@@ -93,7 +93,9 @@ def seqWord {ι : Type} (fmt : ι → String) (posOf : ι → List Nat) (cols : 
 def specStep (cx : Ctx) (line : String) (robs : RObs) : Option SExp :=
   let data := cx.prev.data
   let t := cx.td
-  if cx.elem = .zst then none else     -- zero-sized elements: positions are not observable; generic clauses only
+  -- zero-sized elements: positions are not observable (the harness prints 0 for every position), so result tokens are not
+  -- prescribed; outcome, dimensions and (all-zero) data are
+  (fun (e : Option SExp) => if cx.elem = .zst then e.map (fun x => { x with toks := none }) else e) <|
   match words line with
   | recvTok :: op :: args =>
     if args.getLast?.map isFaultTok = some true then none else
@@ -111,7 +113,7 @@ def specStep (cx : Ctx) (line : String) (robs : RObs) : Option SExp :=
         let posVal (c r : Nat) : SExp :=
           if rc.inRange c r then { same with toks := some [toString (v.pos c r), toString (getD data (v.pos c r))] } else .panic
         let setAt (c r x : Nat) : SExp :=
-          if rc.inRange c r then { same with toks := some [toString (v.pos c r)], data := some (data.set (v.pos c r) x) } else .panic
+          if rc.inRange c r then { same with toks := some [toString (v.pos c r)], data := some (data.set (v.pos c r) (cx.v x)) } else .panic
         let perm (g : Nat × Nat → Nat × Nat) : SExp := { same with data := some (gather data (v.mapCells g)) }
         let upd (h : Nat × Nat → Option Nat) : SExp := { same with data := some (v.updCells data h) }
         let nat (s : String) : Option Nat := s.toNat?
